@@ -21,3 +21,6 @@ func Range(site string, base, end, w, nw, lo, hi int) {}
 
 // PoolPut is a no-op without the verif build tag.
 func PoolPut(name string) {}
+
+// Choice returns natural without the verif build tag.
+func Choice(name string, natural, allowed bool) bool { return natural }
